@@ -217,6 +217,10 @@ def to_model(element: model.ContentElement, is_teletext: bool, tti_cct: bytes, t
 
   context = _Context(element, is_teletext, decode_func)
 
+  # a run of spaces and control codes between two printable characters of a row is a single word space
+  line_has_text = False
+  space_pending = False
+
   while True:
 
     c = tf_iter.cur()
@@ -225,13 +229,21 @@ def to_model(element: model.ContentElement, is_teletext: bool, tti_cct: bytes, t
       break
 
     if _is_character_code(c):
-      if _is_printable_code(c) or (_is_printable_code(tf_iter.peek_next()) and _is_printable_code(tf_iter.peek_prev())):
+      if _is_printable_code(c):
+        if space_pending:
+          context.append_character(0x20)
+          space_pending = False
         context.append_character(c)
+        line_has_text = True
+      else:
+        space_pending = line_has_text
 
     elif _is_newline_code(c):
       if not _is_newline_code(tf_iter.peek_next()) and not _is_unused_space_code(tf_iter.peek_next()):
         context.end_span()
         element.push_child(model.Br(element.get_doc()))
+        line_has_text = False
+        space_pending = False
         if is_teletext:
           context.reset_styles(is_teletext)
 
@@ -269,8 +281,7 @@ def to_model(element: model.ContentElement, is_teletext: bool, tti_cct: bytes, t
       elif c == 0x83:
         context.set_underline(False)
 
-      if (_is_printable_code(tf_iter.peek_next()) and _is_printable_code(tf_iter.peek_prev())):
-        context.append_character(0X20)
+      space_pending = line_has_text
 
     next(tf_iter)
 
